@@ -25,7 +25,7 @@ RULE = ('One case = a generated chart (sends with and without delay, notify) + i
         'contained all 7 documented kinds and a notify.')
 ASSUMPTIONS = ["the undocumented, deprecated 'delayed event sent' meta-event is filtered out before comparison",
                'the listener is attached before the property statechart so that it records meta-event k before the property fails']
-REQUIRED_COUNTERS = ['deprecated_bind_form', 'stream_steps_checked', 'meta_events_checked', 'failfast_runs', 'noninterference_steps',
+REQUIRED_COUNTERS = ['sent_predicate_reads', 'deprecated_bind_form', 'stream_steps_checked', 'meta_events_checked', 'failfast_runs', 'noninterference_steps',
                      'streams_with_all_kinds_and_notify', 'property_time_checks', 'kind_event sent', 'kind_notify',
                      'delayed_sends_seen']
 KINDS = ['step started', 'step ended', 'event consumed', 'event sent', 'state exited', 'state entered', 'transition processed']
@@ -92,10 +92,23 @@ def norm_log(log):
     return out
 
 
+class Coder10(build.Coder):
+    """State invariants record what the documented sent() predicate answers for the notify names: the monitored run must
+    not depend on whether somebody listens."""
+
+    def cond(self, ch, owner_is_transition, cid, kind):
+        if kind == 'inv' and not owner_is_transition:
+            return "S(%r, sent('m0'), sent('m1'), sent(%r))" % (cid, ch['events'][0])
+        return 'True'
+
+
+CODER10 = Coder10()
+
+
 def run_case(acc, rnd, tier, case):
     T = TIERS[tier]
     ch = gen_chart(rnd, mode=rnd.choice((None, 'orth', 'history', 'queue')), p_send=0.5, p_state_send=0.2, p_notify=0.4,
-                   **T['gen'])
+                   contracts=True, p_contract=0.3, **T['gen'])
     script = gen_script(rnd, ch['events'], T['steps'])
     valseed, p_true = rnd.random(), rnd.choice((0.5, 0.8, 1.0))
     names = KINDS + ['m0', 'm1', 'delayed event sent']
@@ -103,7 +116,7 @@ def run_case(acc, rnd, tier, case):
     dg = chart_digest(ch)
 
     # ---- (1) stream completeness/order/attributes + property time ---------------------------------
-    sc, tmap = build.build_api(ch)
+    sc, tmap = build.build_api(ch, coder=CODER10)
     pr = Probes(val=make_val(valseed, p_true))
     it = Interpreter(sc, initial_context=pr.context())
     it.attach(pr.listener())
@@ -134,7 +147,7 @@ def run_case(acc, rnd, tier, case):
         del rec[:]
         t0 = it.clock.time
         o = r.apply(op)
-        base_obs.append(o + (tuple((e[0], e[1]) for e in pr.log if e[0] in 'EXAU'),))
+        base_obs.append(o + (tuple(e if e[0] == 'S' else (e[0], e[1]) for e in pr.log if e[0] in 'EXAUS'),))
         if o[0] == 'raise':
             if isinstance(r.last_error, PropertyStatechartError):
                 acc.violation('C10:never-final-property-raised', 'a property statechart that cannot become final raised', wit)
@@ -190,7 +203,7 @@ def run_case(acc, rnd, tier, case):
     M = sum(meta_per_step)
 
     # ---- (3) non-interference -------------------------------------------------------------------------
-    sc2, tmap2 = build.build_api(ch)
+    sc2, tmap2 = build.build_api(ch, coder=CODER10)
     pr2 = Probes(val=make_val(valseed, p_true))
     it2 = Interpreter(sc2, initial_context=pr2.context())
     r2 = Runner(it2, tmap2, log=pr2.log)
@@ -202,7 +215,8 @@ def run_case(acc, rnd, tier, case):
         if k2 >= len(base_obs):
             break
         pr2.stepno = k2
-        o = r2.apply(op) + (tuple((e[0], e[1]) for e in pr2.log if e[0] in 'EXAU'),)
+        o = r2.apply(op) + (tuple(e if e[0] == 'S' else (e[0], e[1]) for e in pr2.log if e[0] in 'EXAUS'),)
+        acc.count('sent_predicate_reads', sum(1 for e in pr2.log if e[0] == 'S'))
         a = base_obs[k2]
         if a != o:
             d = first_difference(a, o) or 'executed code differs'
@@ -227,7 +241,7 @@ def run_case(acc, rnd, tier, case):
                 at = i
                 break
             cum += n
-        sc3, tmap3 = build.build_api(ch)
+        sc3, tmap3 = build.build_api(ch, coder=CODER10)
         pr3 = Probes(val=make_val(valseed, p_true))
         it3 = Interpreter(sc3, initial_context=pr3.context())
         it3.attach(pr3.listener())
